@@ -260,7 +260,10 @@ class GRelay(Relay):
         c.log(t='att_end', id=sid, kind=kind, rcpts=list(pos), ok=ok, perm=perm, temp=temp, rid=[rids[p] for p in pos], now=c.now())
         if kind == 'seq':
             return res
-        return dict(zip(envelope.recipients, res))
+        pairs = list(zip(envelope.recipients, res))
+        if kind == 'rmap':
+            pairs.reverse()            # a mapping is keyed by recipient; its iteration order is the relay's business
+        return dict(pairs)
 
 
 def rid_of(reply):
@@ -389,7 +392,7 @@ class Scenario(object):
     def outcomes(self, n):
         alpha = self.cfg.get('outcomes')
         if alpha:
-            return [o for o in alpha if not o.startswith(('map:', 'seq:')) or len(o.split(':')[1]) == n]
+            return [o for o in alpha if not o.startswith(('map:', 'seq:', 'rmap:')) or len(o.split(':')[1]) == n]
         return ['ok', 'T1']
 
     def do(self, opt):
